@@ -189,7 +189,8 @@ CHECKS = {
              "ring cleaning only reorder/drop whole coordinates (C13_sort_clean_select); one distinct point gives that Point and two give exactly that "
              "two-point line for any multiplicity (C13_dispatch); every vertex of the result of the whole pipeline - de-duplication, octagon reduction with padding, swap loop, "
              "radial sort, Graham scan, ring cleaning, line-or-polygon - is an input coordinate with all its ordinates, for every input, arithmetic, orientation predicate "
-             "and point-in-ring test (C13_vertices_are_inputs). The complete pipeline incl. the >50-point octagon reduction is mirrored and compared "
+             "and point-in-ring test (C13_vertices_are_inputs); the Graham scan returns a ring that starts and ends at the focal point whatever the orientation predicate answers "
+             "(C13_scan_closed). The complete pipeline incl. the >50-point octagon reduction is mirrored and compared "
              "with Go on every run; the oracle computes the exact hull by monotone chain in rational arithmetic and demands: vertices = extreme points, "
              "closed strictly convex ring or two-point line or point, vertices are input coordinates incl. extra ordinates, input unmodified.",
         note=NOTE_COMMON + "Partial: Graham-scan optimality (no input outside, every vertex extreme) is certified per explored input (exhaustive on 3x3 sequences), not proved for all inputs.",
